@@ -516,12 +516,9 @@ func main() {
 					if sd != 0 && tt != 0 {
 						depth = ev.Pick(r, 6, 7)
 					}
-					// every history of length <= 4 (quick) is executed unmerged; length <= 5 where the alphabet is small
-					// enough (no SpanEvent kind) in the all-non-default configurations, and everywhere in the thorough tier
-					noMerge := ev.Pick(r, 3, 4)
-					if sd != 0 && tt != 0 && sl == 0 {
-						noMerge = 4
-					}
+					// every history of length <= 3 (thorough: 4) is executed whatever the canonical key says; kept small, this
+					// is one of the slowest quick tiers (24 configurations)
+					noMerge := ev.Pick(r, 2, 3)
 					scs = append(scs, &scenario{
 						name:    fmt.Sprintf("SendDelay=%v,TraceTimeout=%v,SpanLimit=%d,MaxExpiredTraces=%d", sd, tt, sl, mx),
 						tc:      config.TracesConfig{SendDelay: config.Duration(sd), TraceTimeout: config.Duration(tt), SpanLimit: sl, MaxExpiredTraces: mx, SendTicker: config.Duration(100 * time.Millisecond)},
@@ -537,7 +534,7 @@ func main() {
 	// two workers (MaxExpiredTraces applies to each worker's own tick) and a sampler that drops one trace
 	scs = append(scs, &scenario{name: "2workers,det2,SendDelay=1s,TraceTimeout=5s,SpanLimit=2,MaxExpiredTraces=1",
 		tc:      config.TracesConfig{SendDelay: config.Duration(time.Second), TraceTimeout: config.Duration(5 * time.Second), SpanLimit: 2, MaxExpiredTraces: 1, SendTicker: config.Duration(100 * time.Millisecond)},
-		workers: 2, ids: ids2, kinds: []fx.Kind{fx.Root, fx.Child}, sampler: det(2), keepAll: false, depth: depth, maxSpans: 3, noMerge: 4})
+		workers: 2, ids: ids2, kinds: []fx.Kind{fx.Root, fx.Child}, sampler: det(2), keepAll: false, depth: depth, maxSpans: 3, noMerge: 3})
 	// ejection, then the same trace ID again: with a kept-decision cache of one entry the record of an ejected
 	// trace is pushed out by the next kept decision, so a later span starts a new fragment of that trace, whose
 	// deadline is TraceTimeout after ITS first span (nothing of the ejected fragment may survive in the timing state)
